@@ -248,7 +248,7 @@ func runTrace(k *kase, merged bool) (t *traceObs, err error) {
 		}
 	}()
 	t = &traceObs{}
-	frames, ifaces, flinks := k.frames()
+	frames, ifaces, flinks, _ := k.frames()
 	secs := k.sections()
 	if merged {
 		var table []string
